@@ -54,12 +54,15 @@ SensKind(x) ==
     [] x = "h" -> Sensor("h", <<<<-1, 0, 0>>, <<0, 0, 0>>>>, <<IdM, Rz90>>, FALSE, <<<<0, 0, 0>>>>, <<1>>)           \* starts unrotated, then rotates
     \* mirror-image orientations (R and R^-1 alternate): their quaternions differ only in signs of components
     [] x = "i" -> Sensor("i", <<<<1, 2, 0>>, <<1, 2, 1>>, <<0, 2, 1>>>>, <<Rz90, Tr(Rz90), Rz90>>, FALSE, P2, <<2>>)
+    \* half turn about the face diagonal (1,-1,0): the vector part of its quaternion sums to zero
+    [] x = "k" -> Sensor("k", <<<<1, -2, 1>>>>, <<<<<<0, -1, 0>>, <<-1, 0, 0>>, <<0, 0, -1>>>>>>, FALSE, P2, <<2>>)
+    [] x = "l" -> Sensor("l", <<<<0, 1, 2>>, <<1, 1, 2>>>>, <<<<<<0, -1, 0>>, <<-1, 0, 0>>, <<0, 0, -1>>>>, <<<<-1, 0, 0>>, <<0, 0, -1>>, <<0, -1, 0>>>>>>, TRUE, P2, <<2>>)
     [] x = "j" -> Sensor("j", <<<<2, 0, 1>>, <<2, 1, 1>>>>, <<MulMM(Rz90, Rx90), MulMM(Tr(Rx90), Rz90)>>, FALSE, P2, <<2>>)  \* order-3 rotations about (1,1,1) and (1,-1,1)... mirror pair
 SensArr(s) ==
   CASE s = 1 -> <<"a">> [] s = 2 -> <<"b">> [] s = 3 -> <<"c">> [] s = 4 -> <<"d">> [] s = 5 -> <<"e">>
     [] s = 6 -> <<"f">> [] s = 7 -> <<"g">> [] s = 8 -> <<"c", "d">> [] s = 9 -> <<"f", "g", "d">>
     [] s = 10 -> <<"b", "a", "h">> [] s = 11 -> <<"a", "d", "e">> [] s = 12 -> <<"e", "c">> [] s = 13 -> <<"h">>
-    [] s = 14 -> <<"d", "d">> [] s = 15 -> <<"i">> [] s = 16 -> <<"j", "c">> [] s = 17 -> <<"i", "g">>
+    [] s = 14 -> <<"d", "d">> [] s = 15 -> <<"i">> [] s = 16 -> <<"j", "c">> [] s = 17 -> <<"i", "g">> [] s = 18 -> <<"k">> [] s = 19 -> <<"l", "k">>
 
 \* flags: 0..3 = 2 * sumup + squeeze
 Build(s) == [field |-> s.field, sumup |-> s.flags \div 2 = 1, squeeze |-> s.flags % 2 = 1, agg |-> s.agg,
